@@ -33,6 +33,16 @@ class KeyCollector:
         if isinstance(n, (ast.List, ast.Tuple)):
             items = [self.val(e) for e in n.elts]
             return items if all(isinstance(i, str) for i in items) else None
+        if isinstance(n, ast.Dict) and n.keys and all(k is not None for k in n.keys):
+            ks, vs = [self.val(k) for k in n.keys], [self.val(v) for v in n.values]
+            if all(isinstance(k, str) for k in ks) and all(isinstance(v, str) for v in vs):
+                return dict(zip(ks, vs))
+            return None
+        if isinstance(n, ast.Call) and isinstance(n.func, ast.Attribute) and n.func.attr in ('items', 'keys', 'values') and not n.args:
+            d = self.val(n.func.value)
+            if isinstance(d, dict):
+                return [list(kv) for kv in d.items()] if n.func.attr == 'items' else list(getattr(d, n.func.attr)())
+            return None
         if isinstance(n, ast.UnaryOp) and isinstance(n.op, ast.Not):
             v = self.val(n.operand)
             return (not v) if isinstance(v, bool) else None
@@ -136,7 +146,15 @@ class KeyCollector:
         if isinstance(s, ast.For):
             it = self.val(s.iter)
             self.scan(s.iter)
-            if isinstance(it, (list, str)) and isinstance(s.target, ast.Name):
+            if isinstance(it, list) and isinstance(s.target, ast.Tuple) and all(isinstance(e, ast.Name) for e in s.target.elts) \
+                    and all(isinstance(x, list) and len(x) == len(s.target.elts) for x in it):
+                for x in it:
+                    for e, y in zip(s.target.elts, x):
+                        self.env[e.id] = y
+                    self.block(s.body)
+                for e in s.target.elts:
+                    self.env.pop(e.id, None)
+            elif isinstance(it, (list, str)) and isinstance(s.target, ast.Name):
                 saved = self.env.get(s.target.id)
                 for x in it:
                     self.env[s.target.id] = x
@@ -153,13 +171,20 @@ class KeyCollector:
             return
         if isinstance(s, ast.Assign) and len(s.targets) == 1 and isinstance(s.targets[0], ast.Name):
             v = self.val(s.value)
-            if isinstance(v, (str, list, bool)):
+            if isinstance(v, (str, list, bool, dict)):
                 self.env[s.targets[0].id] = v
             else:
                 self.env.pop(s.targets[0].id, None)
                 if isinstance(s.value, (ast.DictComp, ast.ListComp)):
                     self.comp(s.value)
                     return
+            self.scan(s.value)
+            return
+        if isinstance(s, ast.Assign) and len(s.targets) == 1 and isinstance(s.targets[0], ast.Subscript) and isinstance(s.targets[0].value, ast.Name) \
+                and isinstance(self.env.get(s.targets[0].value.id), dict):
+            k, v = self.val(s.targets[0].slice), self.val(s.value)
+            if isinstance(k, str) and isinstance(v, str):
+                self.env[s.targets[0].value.id] = dict(self.env[s.targets[0].value.id], **{k: v})
             self.scan(s.value)
             return
         if isinstance(s, ast.AugAssign) and isinstance(s.target, ast.Name) and isinstance(s.op, ast.Add):
@@ -197,6 +222,16 @@ class KeyCollector:
     def comp(self, c):
         g = c.generators[0]
         it = self.val(g.iter)
+        if isinstance(it, list) and isinstance(g.target, ast.Tuple) and all(isinstance(e, ast.Name) for e in g.target.elts) \
+                and all(isinstance(x, list) and len(x) == len(g.target.elts) for x in it):
+            for x in it:
+                for e, y in zip(g.target.elts, x):
+                    self.env[e.id] = y
+                for part in ([c.key, c.value] if isinstance(c, ast.DictComp) else [c.elt]):
+                    self.scan(part)
+            for e in g.target.elts:
+                self.env.pop(e.id, None)
+            return
         if isinstance(it, list) and isinstance(g.target, ast.Name):
             for x in it:
                 self.env[g.target.id] = x
